@@ -7,6 +7,8 @@ use serde_json::{json, Value};
 pub mod c01;
 pub mod c02;
 pub mod c10;
+pub mod c11;
+pub mod c12;
 pub mod c14;
 pub mod c15;
 
@@ -27,6 +29,8 @@ pub fn run(id: &str, tier: Tier, seed: u64, known: &Known) -> PropRun {
         "C01" => c01::run(tier, seed, known),
         "C02" => c02::run(tier, seed, known),
         "C10" => c10::run(tier, seed, known),
+        "C11" => c11::run(tier, seed, known),
+        "C12" => c12::run(tier, seed, known),
         "C14" => c14::run(tier, seed, known),
         "C15" => c15::run(tier, seed, known),
         _ => {
@@ -43,6 +47,8 @@ pub fn replay(id: &str, part: &str, bytes: &[u8], case: &Value) -> Verdict {
         "C01" => c01::replay(part, bytes, case, &mut st),
         "C02" => c02::replay(part, bytes, case, &mut st),
         "C10" => c10::replay(part, bytes, case, &mut st),
+        "C11" => c11::replay(part, bytes, case, &mut st),
+        "C12" => c12::replay(part, bytes, case, &mut st),
         "C14" => c14::replay(part, bytes, case, &mut st),
         "C15" => c15::replay(part, bytes, case, &mut st),
         _ => Err(Failure::new("unknown-property", json!({"id": id}))),
